@@ -227,6 +227,72 @@ pub fn strat_large(t: Tier) -> BoxedStrategy<Case> {
     }
 }
 
+
+// ---------------------------------------------------------------------------
+// bounded-exhaustive: every pair over {a,b} up to length 3 under a grid of scoring schemes
+
+pub fn small_strings(max: usize) -> Vec<Vec<u8>> {
+    let mut out: Vec<Vec<u8>> = vec![vec![]];
+    let mut cur: Vec<Vec<u8>> = vec![vec![]];
+    for _ in 0..max {
+        let mut next = Vec::new();
+        for s in &cur {
+            for c in [b'a', b'b'] {
+                let mut t = s.clone();
+                t.push(c);
+                next.push(t);
+            }
+        }
+        out.extend(next.iter().cloned());
+        cur = next;
+    }
+    out
+}
+
+pub fn exhaustive_specs(t: Tier) -> Vec<ScoreSpec> {
+    let tables: Vec<Vec<i32>> = vec![vec![1, -1, -1, 1], vec![2, -3, -3, 2], vec![1, -2, 0, 1], vec![0, 1, -1, -1]];
+    let gaps: Vec<(i32, i32)> = match t {
+        Tier::Quick => vec![(0, 0), (0, -1), (-1, 0), (-2, -1)],
+        Tier::Thorough => vec![(0, 0), (0, -1), (-1, 0), (-2, -1), (-5, -1), (-1, -3)],
+    };
+    let clipvals: Vec<Option<i32>> = match t {
+        Tier::Quick => vec![None, Some(0), Some(-2)],
+        Tier::Thorough => vec![None, Some(0), Some(-1), Some(-4)],
+    };
+    let mut v = Vec::new();
+    for tb in &tables {
+        for (go, ge) in &gaps {
+            for a in &clipvals {
+                for b in &clipvals {
+                    for c in &clipvals {
+                        for d in &clipvals {
+                            v.push(ScoreSpec { sigma: 2, table: tb.clone(), gap_open: *go, gap_extend: *ge, clips: [*a, *b, *c, *d] });
+                        }
+                    }
+                }
+            }
+        }
+    }
+    v
+}
+
+fn enumerate(t: Tier) -> Box<dyn Iterator<Item = Case>> {
+    let strings = std::sync::Arc::new(small_strings(3));
+    let specs = exhaustive_specs(t);
+    let n = strings.len();
+    Box::new(specs.into_iter().flat_map(move |sp| {
+        let strings = strings.clone();
+        // the standard modes ignore the clip penalties: run them only for the first clip combination of a (table, gap) block
+        let std_modes = sp.clips == [None; 4];
+        (0..n * n).flat_map(move |k| {
+            let (x, y) = (strings[k / n].clone(), strings[k % n].clone());
+            let modes: Vec<Mode> = if std_modes { vec![Mode::Custom, Mode::Global, Mode::Semiglobal, Mode::Local] } else { vec![Mode::Custom] };
+            let sp = sp.clone();
+            modes.into_iter().map(move |mode| Case { spec: sp.clone(), capacity: None, history: Vec::new(), call: Call { mode, x: B(x.clone()), y: B(y.clone()) } })
+        })
+    }))
+}
+
 pub fn property() -> Property {
     Property {
         id: "C01",
@@ -237,6 +303,7 @@ pub fn property() -> Property {
         ],
         subs: vec![
             Box::new(PropSub { name: "C01/small-definition", quick: 480_000, thorough: 12_000_000, shards_quick: 16, shards_thorough: 16, strat: strat_small, check, must_reach: &["custom", "global", "semiglobal", "local", "clipped end", "gap in path", "empty input", "reuse", "definition oracle (all sub-range pairs)", "gap_extend=0"], watch: true }),
+            Box::new(ExhSub { name: "C01/exhaustive", enumerate, check, must_reach: &["custom", "global", "semiglobal", "local", "clipped end", "gap in path", "both empty"] }),
             Box::new(PropSub { name: "C01/large-reference", quick: 96_000, thorough: 2_000_000, shards_quick: 16, shards_thorough: 16, strat: strat_large, check, must_reach: &["reference DP oracle", "reuse"], watch: true }),
         ],
     }
